@@ -77,7 +77,7 @@ def gen(ctx: common.Ctx, n_hist: int, steps: tuple[int, int], explore: bool = Fa
 
 def gen_corpus(ctx: common.Ctx, n: int) -> Iterator[dict[str, Any]]:
     """File versions of the repository's fine-grained scenarios as edit vocabulary, in shuffled orders."""
-    cases = [c for c in corpus.load(["fine-grained*.test"]) if c.steps and not corpus.uses_fixture_only_features(c) and not c.cmd]
+    cases = [c for c in corpus.load(["fine-grained*.test"]) if c.steps and not corpus.uses_fixture_only_features(c) and not c.cmd and not corpus.has_config_files(c)]
     import random
     rng = random.Random("C03-corpus-core")   # seed-independent: known daemon defects are listed per scenario+step
     rng.shuffle(cases)
